@@ -1,3 +1,4 @@
+pub mod c13m;
 pub mod evidence;
 pub mod gen;
 pub mod lag;
